@@ -439,9 +439,22 @@ class ScriptGen:
             n = self.pick(fresh, "fh")
             self.types[n] = typ
             return n
+        if self.fresh_handles:
+            import re
+            pat = re.compile(r"^(%s)(_\d+)?$" % "|".join(re.escape(p) for p in FRESH_PREFIXES))
+            same = [n for n in same if not pat.match(n) or n in self.safe_after_fresh]
         if same and allow_existing and t.chance(0.5, "reuse"):
-            return self.pick(sorted(same), "tv")
+            n = self.pick(sorted(same), "tv")
+            self.used_in_phase.add(n)
+            return n
         cands = [n for n in pool if n not in self.types]
+        if self.fresh_handles:
+            # after fresh_var_name has been called in this phase, a *new* user variable must not be
+            # spelled like a name the builder may already have handed out (prefix or prefix_N): the
+            # builder cannot know about variables that are introduced later
+            import re
+            pat = re.compile(r"^(%s)(_\d+)?$" % "|".join(re.escape(p) for p in FRESH_PREFIXES))
+            cands = [n for n in cands if not pat.match(n)]
         if not cands:
             if same:
                 return self.pick(sorted(same), "tv")
@@ -449,6 +462,7 @@ class ScriptGen:
         n = self.pick(cands, "newv")
         self.types[n] = typ
         self.assignable.add(n)
+        self.used_in_phase.add(n)
         return n
 
     def gen_loops(self, D, arr_n=None):
@@ -670,6 +684,8 @@ class ScriptGen:
             return ("yield", e, self.pick(COMPONENTS, "comp"), te, self.pick(TIME_IDS, "tid"), self.mode())
         if k == 7:
             out = []
+            if not self.fresh_handles:
+                self.safe_after_fresh = set(self.used_in_phase)
             for _ in range(1 + t.draw(3, "nfresh")):
                 h = "$f%d" % self.fresh_n
                 self.fresh_n += 1
@@ -790,6 +806,8 @@ class ScriptGen:
         for pi, name in enumerate(names):
             with t.span("phase"):
                 self.fresh_handles = []
+                self.used_in_phase = set()
+                self.safe_after_fresh = set()
                 self.counter_range = {}
                 # temporaries are per phase: forget non-persistent definitions but keep types
                 D = set(persistent_defined)
